@@ -488,6 +488,30 @@ func main() {
 			}
 		}
 	}
+	// 1b. STUN on the internal link: every truncation x small values of the message length and of
+	//     the attribute length (padding / boundary arithmetic of the attribute walk), also with one
+	//     more attribute in front of the fingerprint
+	for variant := 0; variant < 2; variant++ {
+		base := rtpkt.Stun()
+		if variant == 1 && len(base) >= 28 {
+			// SOFTWARE attribute (0x8022) of length 5 + 3 bytes padding before the fingerprint
+			attr := []byte{0x80, 0x22, 0, 5, 'v', 'e', 'r', 'i', 'f', 0, 0, 0}
+			base = append(append(append([]byte(nil), base[:20]...), attr...), base[20:]...)
+			base[3] += byte(len(attr))
+		}
+		for l := 0; l <= len(base); l++ {
+			for _, o := range []int{3, 23, 22, 2} {
+				for v := 0; v <= 13; v++ {
+					b := append([]byte(nil), base[:l]...)
+					if o < len(b) {
+						b[o] = byte(v)
+					}
+					k++
+					f.feed(input{b, 0, k%2 == 0, fmt.Sprintf("stun v%d trunc=%d set@%d=%d", variant, l, o, v)})
+				}
+			}
+		}
+	}
 	// 2. seeded random stacks of mutations, random packets, STUN messages
 	for i := 0; i < *n; i++ {
 		var in input
@@ -504,6 +528,16 @@ func main() {
 			in = input{randomPkt(rng), vias[rng.Intn(4)], rng.Intn(2) == 0, "random"}
 		default:
 			b, d := stunMut(rng)
+			if rng.Intn(2) == 0 && len(b) > 0 { // a second mutation on top
+				if rng.Intn(2) == 0 {
+					b = b[:rng.Intn(len(b)+1)]
+					d += " trunc"
+				} else {
+					o := rng.Intn(len(b))
+					b[o] = byte(vals[rng.Intn(len(vals))])
+					d += fmt.Sprintf(" set@%d", o)
+				}
+			}
 			via := uint16(0)
 			if rng.Intn(6) == 0 {
 				via = vias[rng.Intn(4)]
